@@ -475,6 +475,10 @@ def run(model, rep, tier):
     from rules.c02 import check_dependency_registration, check_fields_announced
     check_fields_announced(model, rep, rule='R03.3')
     check_dependency_registration(model, rep, rule='R03.2')
+    from rules import round4 as _r4
+    rep.rule('R03.10', 'functools-memoised functions do not hand out writable arrays; types.lru_cache bypasses arguments with ANY writable base')
+    _r4.check_memoised_arrays(model, rep, 'R03.10')
+    _r4.check_writeable_over_bases(model, rep, 'R03.10')
     rep.require('R03.2', 8)
     rep.require('R03.1', 40)
     rep.require('R03.5', 5)
